@@ -41,7 +41,9 @@ Gone(view, dst) ==
 GroupOf(dst, j) == {k \in DOMAIN dst : dst[k].g # 0 /\ dst[k].g = dst[j].g}
 ExceptionIdx(view, dst) ==
   LET gone == Gone(view, dst) IN
-  {j \in DOMAIN dst : /\ dst[j].t = "file" /\ HLOf(dst, j) # <<>>
+  \* (any entry that can have several names: regular files, and since the generators produce them also hard-linked fifos,
+  \* device nodes and symlinks)
+  {j \in DOMAIN dst : /\ dst[j].t # "dir" /\ HLOf(dst, j) # <<>>
                       /\ \A k \in GroupOf(dst, j) \ {j} : k < j /\ dst[k].p \in gone}
 Exception(view, dst) == {dst[j].p : j \in ExceptionIdx(view, dst)}
 
